@@ -11,5 +11,5 @@ if old not in s: print("MUTATION TEXT NOT FOUND"); sys.exit(3)
 open(p,'w').write(s.replace(old,new,1))
 P
 [ $? -eq 3 ] && { rm -rf $D; exit 3; }
-cd /verif && VERIF_REPO=$D VERIF_UNIT_TIMEOUT=${MUT_TIMEOUT:-300} ./check $ID $TIER 2>&1 | grep -E "^C[0-9]+ (HELD|VIOLATED|INCONCLUSIVE)|mech=" | cut -c1-220 | sort | uniq -c | sort -rn | head -${MUT_LINES:-6}
+cd /verif && VERIF_EVID_DIR=$D/evid VERIF_OUT_DIR=$D/out VERIF_REPO=$D VERIF_UNIT_TIMEOUT=${MUT_TIMEOUT:-300} ./check $ID $TIER 2>&1 | grep -E "^C[0-9]+ (HELD|VIOLATED|INCONCLUSIVE)|mech=" | cut -c1-220 | sort | uniq -c | sort -rn | head -${MUT_LINES:-6}
 rm -rf $D
